@@ -1,1 +1,67 @@
 //! Hooks into `event` and the `SwarmDriver` handlers (child module of `event`).
+//!
+//! Pass-through wrappers only: each function forwards to the crate-private handler with the
+//! arguments unchanged, or returns a read-only copy of crate-private state.
+
+use crate::{
+    cmd::{LocalSwarmCmd, NetworkSwarmCmd},
+    driver::SwarmDriver,
+    error::{NetworkError, Result},
+    Network,
+};
+use libp2p::{
+    kad::{self, QueryId, Record, RecordKey},
+    PeerId,
+};
+use std::collections::{HashMap, HashSet};
+use xor_name::XorName;
+
+/// `SwarmDriver::handle_network_cmd` (crate-private).
+pub fn handle_network_cmd(driver: &mut SwarmDriver, cmd: NetworkSwarmCmd) -> Result<()> {
+    driver.handle_network_cmd(cmd)
+}
+
+/// `SwarmDriver::handle_local_cmd` (crate-private).
+pub fn handle_local_cmd(driver: &mut SwarmDriver, cmd: LocalSwarmCmd) -> Result<()> {
+    driver.handle_local_cmd(cmd)
+}
+
+/// `SwarmDriver::handle_kad_event` (private to `event`).
+pub fn handle_kad_event(driver: &mut SwarmDriver, event: kad::Event) -> Result<()> {
+    driver.handle_kad_event(event)
+}
+
+/// Read-only view of `pending_get_record`: for each in-flight query its id, the key being
+/// fetched, the number of waiting senders and, per content hash, the responders so far.
+pub fn pending_get_record(
+    driver: &SwarmDriver,
+) -> Vec<(QueryId, RecordKey, usize, Vec<(XorName, Vec<PeerId>)>)> {
+    driver
+        .pending_get_record
+        .iter()
+        .map(|(id, (key, senders, result_map, _cfg))| {
+            (
+                *id,
+                key.clone(),
+                senders.len(),
+                result_map
+                    .iter()
+                    .map(|(h, (_, peers))| (*h, peers.iter().copied().collect()))
+                    .collect(),
+            )
+        })
+        .collect()
+}
+
+/// The driver's own peer id (a `PeerRecord` with `peer: None` is attributed to it).
+pub fn self_peer_id(driver: &SwarmDriver) -> PeerId {
+    driver.self_peer_id
+}
+
+/// `Network::handle_split_record_error` (private associated fn of `Network`).
+pub fn handle_split_record_error(
+    result_map: &HashMap<XorName, (Record, HashSet<PeerId>)>,
+    key: &RecordKey,
+) -> std::result::Result<Option<Record>, NetworkError> {
+    Network::handle_split_record_error(result_map, key)
+}
